@@ -212,21 +212,19 @@ func (h *errorHook) take() []string {
 }
 
 type v2Env struct {
-	dir      string
-	db       stoabs.KVStore
-	state    dag.State
-	proto    grpc.Protocol
-	tp       transport.Protocol
-	conns    *connList
-	cm       *fakeConnManager
-	base     baseDAG
-	baseXor  hash.SHA256Hash
-	clock    uint32
-	baseDig  string
-	nodeDID  did.DID
-	peerN    int
-	markerCh chan struct{}
-	marker   *peerConn
+	dir     string
+	db      stoabs.KVStore
+	state   dag.State
+	proto   grpc.Protocol
+	tp      transport.Protocol
+	conns   *connList
+	cm      *fakeConnManager
+	base    baseDAG
+	baseXor hash.SHA256Hash
+	clock   uint32
+	baseDig string
+	nodeDID did.DID
+	peerN   int
 }
 
 func (e *v2Env) digest() string {
@@ -250,7 +248,7 @@ func openV2Env(root string, base baseDAG, withDID bool, n int) *v2Env {
 		panic(err)
 	}
 	st := dagx.NewState(db, dag.NewPrevTransactionsVerifier(), dag.NewTransactionSignatureVerifier(stubKeyResolver{}))
-	e := &v2Env{dir: dir, db: db, state: st, base: base, conns: &connList{}, cm: &fakeConnManager{}, markerCh: make(chan struct{}, 16)}
+	e := &v2Env{dir: dir, db: db, state: st, base: base, conns: &connList{}, cm: &fakeConnManager{}}
 	if withDID {
 		e.nodeDID = did.MustParseDID("did:nuts:GvkzxsezHvEc8nGhgz6Xo3jbqkHwswLmWw3CYtCm7hAW")
 	}
@@ -277,13 +275,6 @@ func openV2Env(root string, base baseDAG, withDID bool, n int) *v2Env {
 	}
 	e.baseXor, e.clock = st.XOR(dag.MaxLamportClock)
 	e.baseDig = e.digest()
-	e.marker = &peerConn{StubConnection: grpc.NewStubConnection(transport.Peer{ID: "c19-marker", Address: "marker:1"})}
-	e.marker.onPeer = func() {
-		select {
-		case e.markerCh <- struct{}{}:
-		default:
-		}
-	}
 	return e
 }
 
@@ -317,12 +308,15 @@ var stackBuf = make([]byte, 4<<20)
 // quiesce waits until no asynchronous message handler is running: no goroutine started by handleASync is alive and the
 // in-order TransactionList handler has reached the marker message sent after the input.
 func (e *v2Env) quiesce() bool {
-	for len(e.markerCh) > 0 {
-		<-e.markerCh
-	}
-	_ = e.proto.Handle(e.marker, &v2.Envelope{Message: &v2.Envelope_TransactionList{TransactionList: &v2.TransactionList{ConversationID: []byte("c19-marker")}}})
+	// a fresh marker connection per call: only the first Peer() call of *this* marker's handler signals
+	// (the handler calls Peer() again when it logs its "unknown conversation" error, possibly much later)
+	reached := make(chan struct{})
+	var once sync.Once
+	m := &peerConn{StubConnection: grpc.NewStubConnection(transport.Peer{ID: "c19-marker", Address: "marker:1"})}
+	m.onPeer = func() { once.Do(func() { close(reached) }) }
+	_ = e.proto.Handle(m, &v2.Envelope{Message: &v2.Envelope_TransactionList{TransactionList: &v2.TransactionList{ConversationID: []byte("c19-marker")}}})
 	select {
-	case <-e.markerCh:
+	case <-reached:
 	case <-time.After(watchdog):
 		return false
 	}
@@ -457,14 +451,13 @@ func v2Worker(args []string) int {
 		led.Log("end %d %s %s | %s", rec.I, verdict, changed, strings.ReplaceAll(detail, "\n", " "))
 		e.dropPeer(c)
 		if after != e.baseDig {
-			// every input is evaluated against the same base state
-			e.close()
+			// every input is evaluated against the same base state. The used environment is abandoned, not shut down: stopping the protocol
+			// cancels its context while notifier goroutines of the just-added transaction may sit in the store's lock-with-cancel (can deadlock)
 			envN++
 			e = openV2Env(dir, base, withDID, envN)
 		}
 	}
 	led.Log("done")
-	e.close()
 	return 0
 }
 
@@ -840,7 +833,19 @@ func buildV2Inputs(h *harness) (baseDAG, []v2Record) {
 // v2Protocol runs the envelopes through worker processes, with and without a configured node DID.
 func v2Protocol(h *harness) {
 	base, recs := buildV2Inputs(h)
+	var wg sync.WaitGroup
 	for _, withDID := range []bool{false, true} {
+		wg.Add(1)
+		go func(withDID bool) {
+			defer wg.Done()
+			v2Config(h, base, recs, withDID)
+		}(withDID)
+	}
+	wg.Wait()
+}
+
+func v2Config(h *harness, base baseDAG, recs []v2Record, withDID bool) {
+	{
 		suffix := ".noNodeDID"
 		arg := "0"
 		if withDID {
@@ -864,11 +869,11 @@ func v2Protocol(h *harness) {
 		start, crashes := 0, 0
 		const maxCrashes = 30
 		for start < len(recs) {
-			res := worker.Run("c19v2", []string{dir, arg, strconv.Itoa(start)}, 20*time.Minute)
+			res := worker.Run("c19v2", []string{dir, arg, strconv.Itoa(start)}, time.Duration(h.r.Pick(4, 25))*time.Minute)
 			lines := worker.ReadLedger(filepath.Join(dir, "ledger"))
 			_ = os.Remove(filepath.Join(dir, "ledger"))
 			done := false
-			open := -1
+			open, lastEnd := -1, start-1
 			for _, ln := range lines {
 				switch {
 				case ln == "done":
@@ -877,11 +882,16 @@ func v2Protocol(h *harness) {
 					open, _ = strconv.Atoi(ln[6:])
 				case strings.HasPrefix(ln, "end "):
 					h.v2Result(recs, suffix, ln)
-					open = -1
+					lastEnd, open = open, -1
 				}
 			}
 			if done {
 				break
+			}
+			if open < 0 && res.TimedOut && lastEnd >= start {
+				h.r.Inconclusive(fmt.Sprintf("v2 worker stalled between inputs after input %d; restarted", lastEnd))
+				start = lastEnd + 1
+				continue
 			}
 			if open < 0 {
 				h.r.Fatalf("v2 worker ended (exit=%d signal=%v timeout=%v) outside an input: %s", res.ExitCode, res.Signal, res.TimedOut, tailStr(res.Output, 1500))
